@@ -3,11 +3,11 @@
 patch=$1; prop=$2; tier=${3:-quick}
 cd /repo || exit 2
 if ! git diff --quiet; then echo "repo dirty"; exit 2; fi
-git apply --3way "$patch" 2>/dev/null || git apply "$patch" || { echo "PATCH-DOES-NOT-APPLY"; git checkout -- .; exit 3; }
+git apply --3way "$patch" 2>/dev/null || git apply "$patch" || { echo "PATCH-DOES-NOT-APPLY"; git reset -q --hard HEAD; exit 3; }
 git reset -q
 cd /verif && ./bin/gosymex check --property $prop --tier $tier > /tmp/try_mutant.out 2>&1
 rc=$?
-git -C /repo checkout -- .
+git -C /repo reset -q --hard HEAD
 grep -E "^VIOLATION|^KNOWN|ENGINE-MISMATCH|VACUOUS|^property|INCONCLUSIVE" /tmp/try_mutant.out | cut -c1-300 | head -12
 grep -A1 "^VIOLATION" /tmp/try_mutant.out | grep "harness=" | cut -c1-250 | sort | uniq -c | head -8
 echo "exit=$rc"
